@@ -51,6 +51,27 @@ def band_checks(name, q, f, n):
     return None
 
 
+_KS_CALLS = [0]
+
+
+def ks_call(KS_bounds, *a, **k):
+    """KS_bounds with the plotting switch varied: display=False, display=True and display left at its default in turn"""
+    import matplotlib
+    matplotlib.use("Agg")
+    import matplotlib.pyplot as plt
+    _KS_CALLS[0] += 1
+    m = _KS_CALLS[0] % 3
+    if m == 1:
+        k.pop("display", None)
+    elif m == 2:
+        k["display"] = True
+    try:
+        return KS_bounds(*a, **k)
+    finally:
+        plt.close("all")
+
+
+
 def body(chk):
     from pyuncertainnumber.pba.pbox_free import KS_bounds, d_alpha
     from pyuncertainnumber.pba.intervals.number import Interval as I
@@ -102,7 +123,7 @@ def body(chk):
         rep = {"kind": "oracle", "sample": s, "alpha": alpha}
         chk.count(f"precise-{style}", key=("P", style, n, alpha, si))
         try:
-            bl, br = KS_bounds(np.array(s) if si % 2 else list(s), alpha, display=False)
+            bl, br = ks_call(KS_bounds, np.array(s) if si % 2 else list(s), alpha, display=False)
         except Exception as e:
             chk.report("KS_bounds:precise", f"raises {type(e).__name__}: {e}", rep)
             continue
@@ -128,7 +149,7 @@ def body(chk):
         flat.append(("precise", s, alpha))
         # p-box from the band contains the empirical distribution
         try:
-            pb = KS_bounds(np.array(s), alpha, display=False, output_type="pbox")
+            pb = ks_call(KS_bounds, np.array(s), alpha, display=False, output_type="pbox")
             L, R = np.array(pb.left), np.array(pb.right)
             g = np.array(pb.p_values if hasattr(pb, "p_values") else [])
             emp = np.quantile(np.array(s), np.clip(g, 0, 1), method="inverted_cdf") if len(g) else None
@@ -146,7 +167,7 @@ def body(chk):
         lo, hi = [v - a for v, a in zip(s, w)], [v + a * rng.random() for v, a in zip(s, w)]
         chk.count(f"interval-{style}", key=("I", style, n, alpha, si))
         try:
-            il, ir = KS_bounds(I(lo, hi), alpha, display=False)
+            il, ir = ks_call(KS_bounds, I(lo, hi), alpha, display=False)
         except Exception as e:
             chk.report("KS_bounds:interval", f"raises {type(e).__name__}: {e}", dict(rep, lo=lo, hi=hi))
             continue
@@ -160,7 +181,7 @@ def body(chk):
         # the interval band contains the band of every selection inside the intervals
         for _ in range(4):
             sel = [rng.choice([a, b, min(b, max(a, a + (b - a) * rng.random()))]) for a, b in zip(lo, hi)]
-            sl, sr = KS_bounds(np.array(sel), alpha, display=False)
+            sl, sr = ks_call(KS_bounds, np.array(sel), alpha, display=False)
             ts = sorted(set(lo + hi + sel))
             for t in ts:
                 up_sel = min(1.0, ecdf_at(sel, t) + D)
